@@ -40,5 +40,14 @@ CLAIMS['C07'] = dict(
          'matrix fill never reads source data (frame). Clause not decided: dBi invariance under scaling.',
     note='solve() linear in b (LAPACK) and the transparency of the measure_time decorator are assumed; floats as reals',
     design_ref='DESIGN.md §5 C07')
+CLAIMS['C08'] = dict(
+    text='Proof: compute_impedance_matrix_loads adds, per (load, pulse), exactly -(g/m)*Z*1j on the diagonal (fold over loads and '
+         'pulses, doubled exactly on grounded pulses over ground); scalar lemma c = beta*Z_L and the Lean/Mathlib matrix lemma '
+         '(any dimension) give "feed impedance rises by exactly Z_L" and additivity; Laplace fold; RLC and trap coefficient '
+         'constructors equal their circuit impedance at every frequency (symbolic R, L, C, f); skin-effect and insulation '
+         'formulas per conductor half with cache coherence; sigma = 1/rho; eps_r = 1; frequency setter re-establishes the cache invariant.',
+    note='floats as reals; jv/sqrt/log uninterpreted; Lean lemma recompiled in the thorough tier (quick: hash of last compiled text); '
+         'limit sigma -> infinity not decided',
+    design_ref='DESIGN.md §5 C08, Appendix A')
 for _p in CLAIMS:
     NOT_APPLICABLE.pop(_p, None)
